@@ -298,4 +298,5 @@ def apalache_stage(ctx):
         raise MachineryError('Apalache accepted a wrong append rule (%s)' % r3)
     ctx.cov['obligations'] = ctx.cov.get('obligations', 0) + 2
     ctx.cov['discharged'] = ctx.cov.get('discharged', 0) + 2
-    ctx.stage('apalache-inductive', base=r1, step=r2, wrong_rule=r3)
+    proved = tlc.tlaps('CaptureRegionIndProof', ctx.work)
+    ctx.stage('apalache-inductive', base=r1, step=r2, wrong_rule=r3, tlaps_obligations_proved=proved)
